@@ -133,9 +133,282 @@ theorem C09_cutoff (latency : Nat) (T : Option Nat) :
     · have h1 : latency ≤ min latency t := by omega
       simp [h, h1]
 
+/-! ### Which side enforces: the two stacks against the spec's independent statement -/
+
+/-- The model's result read as the spec's vocabulary. -/
+def asExpect : Done → Spec.Timeout.Expect
+  | .inner t => .finishes t
+  | .timeout t => .cancelled t
+  | .pending => .pending
+
+/-- The status of a cut-off call is the one the property names: CANCELLED, "Timeout expired". -/
+theorem C09_status_is_cancelled_timeout_expired :
+    expiredStatus = (Spec.Timeout.cancelledCode, Spec.Timeout.expiredText) := by decide +kernel
+
+private theorem shortest_pair (h c : Option Nat) :
+    Spec.Timeout.shortest [h, c] = effective h c := by
+  cases h <;> cases c <;> simp [Spec.Timeout.shortest, effective, Nat.min_def]
+
+private theorem shortest_triple (c s e : Option Nat) :
+    Spec.Timeout.shortest [c, s, e] = effective (effective c e) (effective c s) := by
+  cases c <;> cases s <;> cases e <;> simp [Spec.Timeout.shortest, effective, Nat.min_def] <;>
+    (repeat' split) <;> omega
+
+private theorem cut_spec (m l : Option Nat) :
+    asExpect (cutAt m (answer l)) = Spec.Timeout.expected' m l := by
+  cases m with
+  | none => cases l <;> rfl
+  | some m =>
+    cases l with
+    | none => rfl
+    | some l => by_cases h : m < l <;> simp [cutAt, answer, asExpect, Spec.Timeout.expected', h]
+
+/-- Two timers around the same future act as one timer at the shorter deadline (this is why the
+client stack and the server stack compose into "the shortest of all deadlines present"). -/
+theorem C09_timers_compose (a b : Option Nat) (d : Done) :
+    cutAt a (cutAt b d) = cutAt (effective a b) d := by
+  cases a with
+  | none => cases b <;> simp [cutAt, effective]
+  | some x =>
+    cases b with
+    | none => simp [cutAt, effective]
+    | some y =>
+      cases d with
+      | pending =>
+        by_cases h : x ≤ y <;> by_cases h' : x < y <;>
+          simp [cutAt, effective, Nat.min_def, h, h'] <;> omega
+      | inner t =>
+        by_cases h : x ≤ y <;> by_cases h' : x < y <;> by_cases h1 : y < t <;> by_cases h2 : x < t <;>
+          simp [cutAt, effective, Nat.min_def, h, h', h1, h2] <;> omega
+      | timeout t =>
+        by_cases h : x ≤ y <;> by_cases h' : x < y <;> by_cases h1 : y < t <;> by_cases h2 : x < t <;>
+          simp [cutAt, effective, Nat.min_def, h, h', h1, h2] <;> omega
+
+/-- One `GrpcTimeout` (either side) around anything that answers after `l` or never: the call is
+cut with the timeout status at the shorter of the header's and the configured deadline iff it
+has not finished by then (never answering included), otherwise it finishes when the wrapped
+service does; with no deadline it is pending exactly when the wrapped service never answers. -/
+theorem C09_stage_meets_spec (h c l : Option Nat) :
+    asExpect (stage h c (answer l)) = Spec.Timeout.expected [h, c] l := by
+  rw [stage, cut_spec, Spec.Timeout.expected, shortest_pair]
+
+/-- The future of the middleware (`run`, polled at its wake-up) against the spec: the same
+decision, stated on the spec side by the naive fold over the deadlines present. -/
+theorem C09_run_meets_spec (c s : Option Nat) (l : Nat) :
+    run l (effective c s) =
+      (match Spec.Timeout.expected [c, s] (some l) with
+       | .cancelled _ => Outcome.timeout
+       | .finishes _ => Outcome.inner
+       | .pending => Outcome.pending) := by
+  rw [C09_cutoff, Spec.Timeout.expected, shortest_pair]
+  cases effective c s with
+  | none => rfl
+  | some t => by_cases h : t < l <;> simp [Spec.Timeout.expected', h]
+
+/-- Server side: `transport::Server` with or without `Server::timeout`, whatever the client
+does about its own deadline: the handler is cut at the shorter of the grpc-timeout header and
+`Server::timeout`. -/
+theorem C09_server_cutoff (header configured handler : Option Nat) :
+    asExpect (serverStack header configured handler) =
+      Spec.Timeout.expected [header, configured] handler :=
+  C09_stage_meets_spec header configured handler
+
+/-- Client side against a peer that does NOT enforce deadlines and sends its whole response at
+once after `l`, or never: the client stack alone cuts the call at the shorter of the caller's
+timeout and `Endpoint::timeout`. -/
+theorem C09_client_cutoff_plain_peer (caller endpoint l : Option Nat) :
+    asExpect (clientCall caller endpoint (plainPeer l)) =
+      Spec.Timeout.expected [caller, endpoint] l := by
+  rw [Spec.Timeout.expected, shortest_pair]
+  cases he : effective caller endpoint with
+  | none => cases l <;> simp [clientCall, plainPeer, Reply.headDone, stage, cutAt, he, asExpect,
+      Spec.Timeout.expected']
+  | some m =>
+    cases l with
+    | none => simp [clientCall, plainPeer, Reply.headDone, stage, cutAt, he, asExpect,
+        Spec.Timeout.expected']
+    | some l =>
+      by_cases h : m < l <;>
+        simp [clientCall, plainPeer, Reply.headDone, stage, cutAt, he, asExpect,
+          Spec.Timeout.expected', h]
+
+/-- For every caller timeout `T` and `Endpoint::timeout` `C` (either may be absent, not both)
+and a peer that never answers, the client-side outcome is CANCELLED "Timeout expired" at
+`min(T, C)` — the client does not rely on the peer honouring grpc-timeout. -/
+theorem C09_client_enforces_without_peer (T C : Option Nat) (h : T ≠ none ∨ C ≠ none) :
+    ∃ m, clientCall T C (plainPeer none) = Done.timeout m ∧
+      (T = some m ∨ C = some m) ∧ (∀ x, T = some x → m ≤ x) ∧ (∀ x, C = some x → m ≤ x) := by
+  cases T <;> cases C <;>
+    simp [clientCall, plainPeer, Reply.headDone, stage, cutAt, effective] at h ⊢ <;> omega
+
+/-- The symmetric statement for the server stack and a handler that never answers. -/
+theorem C09_server_enforces_without_client (H S : Option Nat) (h : H ≠ none ∨ S ≠ none) :
+    ∃ m, serverStack H S none = Done.timeout m ∧
+      (H = some m ∨ S = some m) ∧ (∀ x, H = some x → m ≤ x) ∧ (∀ x, S = some x → m ≤ x) := by
+  cases H <;> cases S <;> simp [serverStack, answer, stage, cutAt, effective] at h ⊢ <;> omega
+
+private theorem clientCall_tonicPeer (c s e l : Option Nat) :
+    clientCall c e (tonicPeer c s l) = stage c e (serverStack c s l) := by
+  unfold clientCall tonicPeer
+  cases serverStack c s l with
+  | pending => cases he : effective c e <;> simp [Reply.headDone, stage, cutAt, he]
+  | inner t =>
+    cases he : effective c e with
+    | none => simp [Reply.headDone, stage, cutAt, he]
+    | some x => by_cases h : x < t <;> simp [Reply.headDone, stage, cutAt, he, h]
+  | timeout t =>
+    cases he : effective c e with
+    | none => simp [Reply.headDone, stage, cutAt, he]
+    | some x => by_cases h : x < t <;> simp [Reply.headDone, stage, cutAt, he, h]
+
+/-- Client stack then server stack (tonic on both ends): the caller sees the cut at the
+shortest of the three deadlines present, or the handler's answer when it comes. -/
+theorem C09_end_to_end (caller server endpoint handler : Option Nat) :
+    asExpect (endToEnd caller server endpoint handler) =
+      Spec.Timeout.expected [caller, server, endpoint] handler := by
+  rw [endToEnd, clientCall_tonicPeer, stage, serverStack, stage, C09_timers_compose, cut_spec,
+    Spec.Timeout.expected, shortest_triple]
+
+/-- TARGET (false of the code as it is, see `_fails`): whatever the peer's reply looks like, the
+client cuts the call at the shorter deadline unless the reply is complete by then. -/
+def ClientCutoffAnyReply : Prop :=
+  ∀ (caller endpoint : Option Nat) (r : Reply), r.cancelled = false →
+    asExpect (clientCall caller endpoint r) = Spec.Timeout.expected [caller, endpoint] r.done
+
+/-- What holds: replies whose head arrives together with their end (unary replies of a tonic
+server, trailers-only replies, a peer that never answers). -/
+theorem C09_client_cutoff_any_reply_partial (caller endpoint : Option Nat) (r : Reply)
+    (hc : r.cancelled = false) (hd : r.head = r.done) :
+    asExpect (clientCall caller endpoint r) = Spec.Timeout.expected [caller, endpoint] r.done := by
+  obtain ⟨c, hh, dd⟩ := r
+  simp only at hc hd
+  subst hc hd
+  exact C09_client_cutoff_plain_peer caller endpoint hh
+
+/-- FINDING (C09-F1): the client's timer stops when the response head arrives; a peer that sends
+the head and then stalls keeps the call open past the deadline (forever, if it never finishes).
+Witness: caller timeout 300 ms, no `Endpoint::timeout`, head at once, body never finished. -/
+theorem C09_client_cutoff_any_reply_fails : ¬ ClientCutoffAnyReply := by
+  intro h
+  have := h (some 300000000) none (stallPeer none) rfl
+  revert this
+  decide
+
+/-! ### What travels -/
+
+private theorem chosen_spec (d : Nat) (vu : Nat × U) (h : encodeVU d = some vu) :
+    Spec.Timeout.chosenUnit d = some vu.2.nanos ∧ vu.1 = d / vu.2.nanos := by
+  have e1 : d / 1000000000 / 60 = d / 60000000000 := by omega
+  have e2 : d / 60000000000 / 60 = d / 3600000000000 := by omega
+  unfold encodeVU maxValue at h
+  simp only [e1, e2] at h
+  simp only [Spec.Timeout.chosenUnit, Spec.Timeout.unitSizes, List.find?]
+  repeat' split at h
+  all_goals first
+    | (cases h; refine ⟨?_, ?_⟩ <;> simp [U.nanos, *] <;> omega)
+    | (cases h)
+
+/-- encode → parse → min, composed: for every caller timeout `c` up to 99 999 999 h and every
+configured timeout, the header `Request::set_timeout c` writes is read back by the receiving
+`GrpcTimeout` as `w` = `c` rounded down to the most precise unit that fits 8 digits (the spec's
+`onWire`), with `w ≤ c < w + unit`, and the deadline enforced is `min(w, configured)`. -/
+theorem C09_wire_deadline (c : Nat) (hc : c ≤ Spec.Timeout.maxDuration) (s : Option Nat) :
+    ∃ w unit, wire c = some w ∧ Spec.Timeout.onWire c = some w ∧
+      Spec.Timeout.chosenUnit c = some unit ∧ w ≤ c ∧ c < w + unit ∧
+      effective (wire c) s = some (match s with | none => w | some x => min w x) := by
+  obtain ⟨vu, hvu⟩ := C09_encode_defined c hc
+  have hp := C09_parse_enc c vu hvu
+  have ⟨hu, hv⟩ := chosen_spec c vu hvu
+  have hw : wire c = some (vu.1 * vu.2.nanos) := by
+    simp [wire, setTimeouts, setTimeout, encode, hvu, headerTimeout, hp]
+  refine ⟨vu.1 * vu.2.nanos, vu.2.nanos, hw, ?_, hu, C09_never_longer c vu hvu,
+    C09_loss_lt_unit c vu hvu, ?_⟩
+  · simp [Spec.Timeout.onWire, hu, hv]
+  · rw [hw]; cases s <;> simp [effective]
+
+/-- "Malformed values are ignored", at the level of the call: a request whose (first)
+grpc-timeout value is not spec-conformant is treated exactly like a request without the
+header, whatever else the header carries — only the configured timeout applies, and with none
+configured the wrapped service's result passes through untouched. -/
+theorem C09_malformed_header_ignored (v : Bytes) (rest : List Bytes)
+    (hbad : Spec.Timeout.denote v = none) (configured : Option Nat) (below : Done) :
+    headerTimeout (v :: rest) = none ∧
+    stage (headerTimeout (v :: rest)) configured below = stage none configured below ∧
+    stage (headerTimeout (v :: rest)) none below = below := by
+  have h : headerTimeout (v :: rest) = none := by
+    simp [headerTimeout, C09_parse_is_spec, hbad]
+  refine ⟨h, by rw [h], ?_⟩
+  rw [h]; cases below <;> rfl
+
+/-- A conformant (first) value is what is enforced, whatever follows it in the header. -/
+theorem C09_conformant_header_enforced (v : Bytes) (rest : List Bytes) (d : Nat)
+    (hv : Spec.Timeout.denote v = some d) : headerTimeout (v :: rest) = some d := by
+  simp [headerTimeout, C09_parse_is_spec, hv]
+
+private theorem setTimeouts_none (ds : List Nat) : ds.foldl setTimeout none = none := by
+  induction ds with
+  | nil => rfl
+  | cons d ds ih => simpa [List.foldl, setTimeout] using ih
+
+private theorem setTimeouts_snoc (ds : List Nat) (d : Nat) (hdr : Option (List Bytes)) :
+    (ds ++ [d]).foldl setTimeout hdr = setTimeout (ds.foldl setTimeout hdr) d := by
+  simp [List.foldl_append]
+
+/-- `set_timeout` called any number of times: if no call panicked, the header carries exactly
+one value, the one of the LAST call (earlier values are replaced, never accumulated). -/
+theorem C09_last_set_timeout_wins (ds : List Nat) (d : Nat)
+    (hall : ∀ x ∈ ds, x ≤ Spec.Timeout.maxDuration) (hd : d ≤ Spec.Timeout.maxDuration) :
+    ∃ v, encode d = some v ∧ setTimeouts (ds ++ [d]) = some [v] ∧
+      headerTimeout [v] = wire d := by
+  obtain ⟨vu, hvu⟩ := C09_encode_defined d hd
+  have hsome : ∀ (ds : List Nat) (hdr : List Bytes), (∀ x ∈ ds, x ≤ Spec.Timeout.maxDuration) →
+      ∃ vals, ds.foldl setTimeout (some hdr) = some vals := by
+    intro ds
+    induction ds with
+    | nil => intro hdr _; exact ⟨hdr, rfl⟩
+    | cons x xs ih =>
+      intro hdr hx
+      obtain ⟨vx, hvx⟩ := C09_encode_defined x (hx x (by simp))
+      simp only [List.foldl, setTimeout, encode, hvx, Option.map_some]
+      exact ih _ (fun y hy => hx y (by simp [hy]))
+  obtain ⟨vals, hvals⟩ := hsome ds [] hall
+  refine ⟨render vu, by simp [encode, hvu], ?_, ?_⟩
+  · simp [setTimeouts, hvals, setTimeout, encode, hvu]
+  · simp [wire, setTimeouts, setTimeout, encode, hvu]
+
+private theorem builder_fold (ops : List BOp) (b : Builder) :
+    (ops.foldl Builder.apply b).timeout =
+      (match Spec.Timeout.lastSet (ops.map fun | .timeout t => some t | _ => none) with
+       | some t => some t
+       | none => b.timeout) := by
+  induction ops generalizing b with
+  | nil => rfl
+  | cons op ops ih =>
+    simp only [List.foldl, List.map, Spec.Timeout.lastSet]
+    rw [ih]
+    cases hl : Spec.Timeout.lastSet (ops.map fun | .timeout t => some t | _ => none) with
+    | some t => rfl
+    | none => cases op <;> simp [Builder.apply] <;> cases b.timeout <;> rfl
+
+/-- Builder call sequences (`transport::Server`, `Endpoint`), of any length and in any order:
+the timeout the stack is built with is the one of the most recent `.timeout(..)` call; `.layer`,
+`connect_timeout` and every other builder method neither drop nor change it. -/
+theorem C09_builder_last_timeout_wins (ops : List BOp) :
+    configured ops = Spec.Timeout.lastSet (ops.map fun | .timeout t => some t | _ => none) := by
+  rw [configured, builder_fold]
+  cases Spec.Timeout.lastSet (ops.map fun | .timeout t => some t | _ => none) <;> rfl
+
 /- Non-vacuity: a concrete duration meets the hypotheses and exercises unit selection. -/
 example : encodeVU 100000000000 = some (100000, .m) ∧ (100000000000 : Nat) ≤ Spec.Timeout.maxDuration := by decide
 example : Spec.Timeout.denote [49, 50, 83] = some 12000000000 := by decide
 example : tryParse [43, 53, 83] = none := by decide   -- "+5S" is not spec-conformant
+example : clientCall (some 300000000) none (plainPeer none) = Done.timeout 300000000 := by decide
+example : clientCall (some 300000000) none (stallPeer none) = Done.pending := by decide
+example : endToEnd (some 50) (some 20) (some 30) (some 25) = Done.timeout 20 := by decide
+example : wire 1000000500 = some 1000000000 := by decide
+example : Spec.Timeout.denote [43, 53, 83] = none ∧
+    stage (headerTimeout [[43, 53, 83]]) (some 7) (answer (some 5)) = Done.inner 5 := by decide
+example : configured [.timeout 5, .layer, .other, .connectTimeout 1] = some 5 := by decide
+example : setTimeouts [10000000000, 5] = some [[53, 110]] := by decide
 
 end C09
